@@ -385,6 +385,31 @@ def run_config(cfg):
                 if v:
                     return (v[0], v[1], "at-run-time", v[3])
                 continue
+            if st[0] == "join3":
+                # a join over three pipelines, two of them still unbound: all three end up in one component, and a
+                # loop-requiring node added to the *third* lands on the component's loop
+                _, kind = st
+                o1, _x = make_first("Stream", seams, None, None)
+                o2, _x = make_first("Stream", seams, None, None)
+                try:
+                    newc = ref_add([comp, ref_add([], False, None, None, bg), ref_add([], False, None, None, bg)], False, None, None, bg)
+                    tip = [n for n in nodes if n is not sibling][-1]
+                    j = make_node(kind, [tip, o1, o2], seams, None, None)
+                    comp = newc
+                    nodes += [o1, o2, j]
+                    v = compare(nodes, comp, seams, bg, cfg, kind)
+                    if v:
+                        return v
+                    newc = ref_add([comp], True, None, None, bg)
+                    ext = make_node("buffer", [o2], seams, None, None)
+                except Exception as e:   # noqa
+                    return ("exception", kind, "three-input-join", dict(cfg=cfg, error=repr(e)[:200]))
+                comp = newc
+                nodes.append(ext)
+                v = compare(nodes, comp, seams, bg, cfg, kind)
+                if v:
+                    return (v[0], v[1], "extend-third-input", v[3])
+                continue
             if st[0] == "node":
                 _, kind, a, l = st
                 if kind not in ACCEPTS_KW:
@@ -548,6 +573,10 @@ def configs(thorough):
                     for k in kinds:
                         for a, l in args:
                             yield (first, A, L, (("dask",), ("node", k, a, l)))
+                if first in ("Stream", "from_periodic", "from_iterable"):
+                    for j in JOINS:
+                        yield (first, A, L, (("join3", j),))
+                        yield (first, A, L, (("node", "buffer", None, None), ("join3", j)))
                 if first in ("Stream", "from_periodic"):
                     for j in JOINS:
                         for f2 in ("Stream", "from_iterable"):
@@ -597,6 +626,8 @@ def check(ctx):
     # process-wide background loop replaced by a reporting stand-in, every schedule of a short scenario
     from .. import spar
     kjobs = [((consumer, 2, 1, None, False, "earliest", (), (0,), (0, 0), 2.0, "sentinel"), 0) for consumer in ("sync", "direct")]
+    # the same with a source that is not declared asynchronous but given the loop explicitly
+    kjobs += [(("sync", 2, 1, None, False, "earliest", (), (0,), (0, 0), 2.0, "sentinel+blocking"), 0)]
     kres = spar.run_scenarios(ctx, "vf.props.c09", kjobs)
     krep = spar.report_from(ctx, "vf.props.c09", kres, bounds=[0], rule="")
     for f in krep.findings:
